@@ -349,6 +349,33 @@ func (e *eng) generateAndRun() error {
 	nRandom := o.Budget(60, 600)
 	idx := uint64(0)
 	next := func() *common.Rng { idx++; return r.Fork(idx) }
+	if os.Getenv(onlyEnv) == "race" {
+		// the race-instrumented pass: heavy concurrent round-robin, a slice of everything else
+		idx = 1 << 32
+		for i := 0; i < 400; i++ {
+			c := genRR(next())
+			c.Threads = 4 + i%13
+			c.Selects = c.Threads * (20 + i%80)
+			if err := e.evalCase(c); err != nil {
+				return err
+			}
+		}
+		for i := 0; i < 150; i++ {
+			c := genGroups(next(), false)
+			if i%5 == 0 {
+				toUDP(&c)
+			}
+			if err := e.evalCase(c); err != nil {
+				return err
+			}
+		}
+		for i := 0; i < 40; i++ {
+			if err := e.evalCase(genRandom(next())); err != nil {
+				return err
+			}
+		}
+		return nil
+	}
 	for i := 0; i < nGroups; i++ {
 		if err := e.evalCase(genGroups(next(), o.Search)); err != nil {
 			return err
